@@ -364,7 +364,9 @@ def check_property(prop, tier, seed):
                 open(rp, "w").write("CMD: " + " ".join(r.cmd) + f"\nexit: signal {-r.rc}\n\n" + text[-20000:])
                 violations.append({"signature": f"crash:{leg['name']}:signal={-r.rc}", "replay": rp, "text": f"process killed by signal {-r.rc} while executing contract-respecting histories"})
                 continue
-            if r.rc not in (0, 1) or s is None:
+            if s is not None and s.get("harness_problems"):
+                inconclusive.append(f"{r.name}: {s['harness_problems'][0]}")
+            if r.rc not in (0, 1, 3) or s is None:
                 inconclusive.append(f"{r.name}: harness error rc={r.rc} stderr={r.stderr[-300:]!r}")
                 continue
             # --- a hist summary
